@@ -183,21 +183,7 @@ theorem tile_array_spec {α} (z : α) (M : Img α) (R C ro co tr tc : Int) (hr :
       ∀ a b, 0 ≤ a → a < tr → 0 ≤ b → b < tc →
         fr a b = if ro - 1 + a < R ∧ co - 1 + b < C then M (ro - 1 + a) (co - 1 + b) else z := by
   obtain ⟨fr, h, hs⟩ := getTileArray_spec z M R C ro co tr tc hr hc h1 h2 h3 h4
-  refine ⟨fr, h, ?_, hs⟩
-  unfold getTileShape
-  cases hb : tileArrayBounds ro co tr tc R C with
-  | error e => exfalso; unfold tileArrayBounds at hb; grind
-  | ok v =>
-    obtain ⟨r0, r1, c0, c1, pr, pc⟩ := v
-    have hh : r0 = ro - 1 ∧ r1 = min (ro - 1 + tr) R ∧ c0 = co - 1 ∧ c1 = min (co - 1 + tc) C ∧
-        pr = ro - 1 + tr - min (ro - 1 + tr) R ∧ pc = co - 1 + tc - min (co - 1 + tc) C := by
-      unfold tileArrayBounds at hb
-      grind
-    obtain ⟨rfl, rfl, rfl, rfl, rfl, rfl⟩ := hh
-    simp only
-    rw [if_neg (by omega), pyNorm_id _ _ (by omega) (by omega), pyNorm_id _ _ (by omega) (by omega),
-      pyNorm_id _ _ (by omega) (by omega), pyNorm_id _ _ (by omega) (by omega)]
-    congr 2 <;> omega
+  exact ⟨fr, h, getTileShape_spec R C ro co tr tc hr hc h1 h2 h3 h4, hs⟩
 
 theorem tile_array_refused {α} (z : α) (M : Img α) (R C ro co tr tc : Int) (h : ro < 1 ∨ R < ro ∨ co < 1 ∨ C < co) :
     getTileArray z M R C ro co tr tc = .error .value := by
